@@ -87,7 +87,7 @@ std::string item_line(const std::string& line) {
 std::string item_csv(const std::vector<ygm::io::detail::csv_field>& v) {
   size_t tot = 0; for (auto& x : v) tot += x.as_string().size();
   std::string d = std::to_string(v.size());
-  for (size_t k = 0; k < v.size() && k < 4; ++k) d += "|" + clean(v[k].as_string(), 14);
+  for (size_t k = 0; k < v.size() && k < 5; ++k) d += "|" + clean(v[k].as_string(), 14);
   return "R " + std::to_string(v.size()) + " " + d + "|" + std::to_string(tot);
 }
 std::string item_json(const boost::json::object& o) {
